@@ -138,6 +138,14 @@ class m1d:
         return condition * dx / vmax
     def bad2(self, data, dx, condition):
         return condition * np.gradient(dx) / self.speed(data)
+    def energy(self, data):
+        if data[1].shape[0] != 2:
+            return data[1] ** 2
+        return data[1][0] ** 2 + data[1][1] ** 2
+    def energy_ok(self, data):
+        if data[1].ndim == 1:
+            return data[1] ** 2
+        return data[1][0] ** 2 + data[1][1] ** 2
     def speed(self, data):
         if np.all(data[0] > 0):
             return data[0].max()
@@ -161,7 +169,7 @@ def pointwise_example():
         for ci in proj.all_classes():
             for f in ci.methods.values():
                 got[f.qualname] = len(pointwise.scan(proj, f))
-        want = {"example.m2d.ok": 0, "example.m1d.timestep": 0, "example.m1d.bad1": 1, "example.m1d.bad2": 3, "example.m1d.speed": 2}
+        want = {"example.m2d.ok": 0, "example.m1d.timestep": 0, "example.m1d.bad1": 1, "example.m1d.bad2": 3, "example.m1d.speed": 2, "example.m1d.energy": 1, "example.m1d.energy_ok": 0}
         if got != want:
             raise AnalysisError("KERNEL-POINTWISE built-in example: expected %s, got %s" % (want, got))
         _pw_ok = True
@@ -213,7 +221,7 @@ def kernel_pointwise(check):
     check.inventory["KERNEL-POINTWISE kernels scanned"] = len(ks)
     if not n:
         check.ok("KERNEL-POINTWISE", "%d kernels (%s)" % (len(ks), ", ".join(sorted({r for _, r in ks}))),
-                 "no reduction or neighbour access applied to an argument-dependent value; built-in example: 6 couplings reported, 2 point-wise kernels and 1 np.all guard silent")
+                 "no reduction or neighbour access applied to an argument-dependent value; built-in example: 6 couplings and 1 extent-dependent branch reported, 3 point-wise kernels and 1 np.all guard silent")
 
 
 # ---------------------------------------------------------------------------------------------
